@@ -59,9 +59,14 @@ func (c *Ctx) ListsAsGiven(prop string) {
 							okVal = true
 						}
 					}
-				case *ssa.Const, *ssa.MakeSlice, *ssa.MakeMap, *ssa.Slice:
-					// a default (empty or literal) value
+				case *ssa.Const, *ssa.MakeSlice, *ssa.MakeMap:
+					// a default (empty) value
 					okVal = true
+				case *ssa.Slice:
+					// a literal default: the whole of a local array
+					if _, isLit := x.X.(*ssa.Alloc); isLit && x.Low == nil && x.High == nil {
+						okVal = true
+					}
 				}
 				if okVal {
 					c.R.OK(rule, key+"@"+Fn(fn), c.Pos(st), "assigned the option's own argument (or a literal default)")
